@@ -36,10 +36,11 @@ func (w *hWriter) Write(p []byte) (int, error) {
 type sfRoute struct {
 	format string // "" = Print
 	args   []interface{}
+	printf bool // Printf even with an empty format
 }
 
 func (x sfRoute) SafeFormat(w redact.SafePrinter, verb rune) {
-	if x.format == "" {
+	if x.format == "" && !x.printf {
 		w.Print(x.args...)
 	} else {
 		w.Printf(x.format, x.args...)
@@ -52,6 +53,7 @@ func H_c16(p []int) {
 	s, i := symLeaves(-1, n, false)
 	a := func() []interface{} { return []interface{}{mkValue(k1, s, i), mkValue(k2, s, 7)} }
 	format := ""
+	emptyFormat := false
 	if pf == 1 {
 		format = "x‹%v y%5s|%d"
 	}
@@ -61,7 +63,20 @@ func H_c16(p []int) {
 		format = "hello ‹ lit\n."
 		a = func() []interface{} { return nil }
 	}
-	vSite(fmt.Sprintf("kinds=%d,%d printf=%d wmode=%d", k1, k2, pf, wmode))
+	if pf == 3 {
+		// %w outside HelperForErrorf, with an error operand
+		pf = 1
+		format = "e %w|%v"
+		a = func() []interface{} { return []interface{}{valErr{s}, mkValue(k2, s, 7)} }
+	}
+	if pf == 4 {
+		// an empty format with operands: the EXTRA diagnostic
+		pf = 1
+		format = ""
+		a = func() []interface{} { return []interface{}{mkValue(k1, s, i), 2} }
+		emptyFormat = true
+	}
+	vSite(fmt.Sprintf("kinds=%d,%d printf=%d wmode=%d format=%q", k1, k2, pf, wmode, format))
 	// route 1: Sprint / Sprintf
 	var r1 []byte
 	if pf == 0 {
@@ -107,8 +122,10 @@ func H_c16(p []int) {
 	}))
 	vAssert(bytesEq(mergeAdj(r4), mergeAdj(r1)), "C16/sprintfn-agrees")
 	// route 5: SafePrinter inside a SafeFormat method
-	r5 := []byte(redact.Sprint(sfRoute{format, a()}))
+	r5 := []byte(redact.Sprint(sfRoute{format, a(), emptyFormat}))
 	vAssert(bytesEq(mergeAdj(r5), mergeAdj(r1)), "C16/safeformat-agrees")
+	// StringWithoutMarkers is the same rendering, stripped
+	vAssert(bytesEq([]byte(redact.StringWithoutMarkers(sfRoute{format, a(), emptyFormat})), strip(r5)), "C16/stringwithoutmarkers-agrees")
 	// routes 3/4 with a non-empty outer buffer (open envelope, pending bytes)
 	var b2 redact.StringBuilder
 	b2.UnsafeString("u")
@@ -143,10 +160,10 @@ func H_c16d(p []int) {
 	s, i := symLeaves(-1, n, false)
 	vSite(fmt.Sprintf("nested kind=%d outer=%q", kind, c16Outer[di]))
 	r1 := []byte(redact.Sprint(mkValue(kind, s, i)))
-	r5 := []byte(redact.Sprintf(c16Outer[di], sfRoute{"", []interface{}{mkValue(kind, s, i)}}))
+	r5 := []byte(redact.Sprintf(c16Outer[di], sfRoute{"", []interface{}{mkValue(kind, s, i)}, false}))
 	vObserve("sprint", r1)
 	vAssert(bytesEq(mergeAdj(r5), mergeAdj(r1)), "C16/safeformat-agrees-under-flags")
-	r6 := []byte(redact.Sprintf(c16Outer[di], sfRoute{"%v", []interface{}{mkValue(kind, s, i)}}))
+	r6 := []byte(redact.Sprintf(c16Outer[di], sfRoute{"%v", []interface{}{mkValue(kind, s, i)}, false}))
 	vAssert(bytesEq(mergeAdj(r6), mergeAdj(r1)), "C16/safeformat-printf-agrees-under-flags")
 }
 
